@@ -9,6 +9,7 @@ import datetime
 import decimal
 import itertools
 import re
+import zlib
 
 from lib import common, timexcorr as tc
 from lib.common import cps, uncps
@@ -22,7 +23,8 @@ REQUIRED_THEOREMS = ['weekday_resolve', 'duration_seconds', 'year_range', 'month
                      'inner_collapse_before_fix_stuck', 'evaluate_triple_returns', 'evaluate_regressions',
                      'evaluate_sound_weekday', 'evaluate_complete_weekday', 'collapse_sound_dates', 'collapse_sound_times',
                      'dates_matching_day_spec', 'evaluate_monthday_stage_sound', 'evaluate_timerange_stage_sound',
-                     'evaluate_sound', 'evaluate_dateOnly_eq', 'evaluate_complete_monthday']
+                     'evaluate_sound', 'evaluate_dateOnly_eq', 'evaluate_complete_monthday',
+                     'stages234_sound', 'evaluate_sound_durations', 'evaluate_complete_hours']
 RULE = ('resolve: weekday TIMEXes XXXX-WXX-0..9 (with and without a time) x every day 1950-01-01..2090-12-31 in '
         'thorough (quick: every day of 2019-2021, the first/last ten days of every year, seeded days), XXXX-MM / '
         'XXXX-MM-DD x one reference per year + seeded, YYYY / YYYY-MM (all 12) / YYYY-Www (00-54) / durations (all '
@@ -30,7 +32,7 @@ RULE = ('resolve: weekday TIMEXes XXXX-WXX-0..9 (with and without a time) x ever
         'date_of_last_day / date_of_next_day (day -1..8) x days, dates_matching_day, week/month/year_date_range, '
         'expand_datetime_range, daterange_/timerange_from_timex, timex_date_add, timex_time_add, duration_value, '
         'inner_collapse stepwise on small range lists (exhaustive over a 6-point grid for <=3 ranges); evaluate: '
-        'candidate sets (weekday, month-day, time, weekday+time, duration) x ordered lists of 1-3 constraints (year, '
+        'candidate sets (weekday, month-day, time, weekday+time, duration; duration candidates x datetime constraints x date ranges with an independent datetime+duration oracle) x ordered lists of 1-3 constraints (year, '
         'month, (start,end,PnD/W/M/Y), (Thh,Thh,PTnH), part of day, time, datetime) in the window 2020-2021: '
         'exhaustive small grid in thorough, seeded in quick. non-trivial = distinct call that returned >= 1 value')
 ASSUMPTIONS = ['datetime / timedelta of the running CPython (modelled in RTV.Model.Cal, cross-checked here)',
@@ -404,6 +406,92 @@ def oracle_evaluate(cands, cons, raw):
     return None
 
 
+DUR_CANDS = ['PT2H', 'PT14H', 'PT30H', 'PT45M', 'PT90M', 'PT1500M', 'P1D', 'P20D', 'P2W', 'PT0H', 'P0D']
+DATETIME_CONS = ['2020-01-15T10', '2020-01-31T23:30', '2020-12-31T20:15:30', '2020-02-28T12', '2021-06-01T00']
+
+
+def dur_sum(dur, st):
+    """-> (date, seconds or None): `st` (datetime) + duration as the code defines it: hours/minutes carry into days and
+    keep the time; day/week durations give the date only (None), a zero day count leaves the datetime as it is"""
+    m = re.match(r'^(PT?)(\d+)([HMDW])$', dur)
+    n, u = int(m.group(2)), (m.group(1), m.group(3))
+    if u == ('PT', 'H'):
+        e = st + datetime.timedelta(hours=n)
+    elif u == ('PT', 'M'):
+        e = st + datetime.timedelta(minutes=n)
+    else:
+        days = n * (7 if u[1] == 'W' else 1)
+        if days == 0:
+            return st.date(), st.hour * 3600 + st.minute * 60 + st.second
+        return (st + datetime.timedelta(days=days)).date(), None
+    return e.date(), e.hour * 3600 + e.minute * 60 + e.second
+
+
+def oracle_evaluate_dur(cands, cons, raw):
+    """duration candidates x datetime constraints x date ranges: every result is a valid date inside a supplied date range
+    whose month, day (and time) are those of `S + D` for a supplied datetime S and a candidate D; a date-only sum carries
+    the time of one of the datetime constraints (stage 3 attaches it)."""
+    dcs = [c for c in cons if c.kind == 'date']
+    sts = [c.lo for c in cons if c.kind == 'datetime']
+    if not dcs or not sts or any(c.kind not in ('date', 'datetime') for c in cons):
+        return None
+    if isinstance(raw, str):
+        if raw == 'hang':
+            return 'collapse-nonterminating', 'evaluate does not return (wall-clock / memory limit)'
+        return 'evaluate-raises', 'evaluate raises %s' % raw
+    sums = [dur_sum(d, st) for d in cands for st in sts]
+    stimes = [st.hour * 3600 + st.minute * 60 + st.second for st in sts]
+    for (val, y, mo, dom, h, mi, s, types) in raw:
+        if y is None or mo is None or dom is None:
+            return 'evaluate-not-definite', 'result %r is not definite' % (val,)
+        try:
+            dt = D(int(y), int(mo), int(dom))
+        except Exception:
+            return 'evaluate-invalid-date', 'result %r is not a calendar date' % (val,)
+        if not any(c.lo <= dt < c.hi for c in dcs):
+            return 'evaluate-outside-date-range', 'result %r lies in none of the date ranges %s' % (val, [c.text for c in dcs])
+        sec = None if h is None else int(h) * 3600 + int(mi) * 60 + int(s)
+        if not any((sd.month, sd.day) == (dt.month, dt.day) and (sec == ss if ss is not None else sec in stimes)
+                   for sd, ss in sums):
+            return 'evaluate-duration-sum', 'result %r is not the month/day/time of any datetime constraint + duration candidate %s' % (
+                val, [(iso(sd), ss) for sd, ss in sums][:6])
+    # completeness: single date range, single datetime: every sum that lies in the range is returned
+    if len(dcs) == 1 and len(sts) == 1:
+        got = {v[0] for v in raw}
+        for sd, ss in sums:
+            if dcs[0].lo <= sd < dcs[0].hi:
+                t = ss if ss is not None else stimes[0]
+                want = iso(sd) + ('T%02d' % (t // 3600) if t % 3600 == 0 else
+                                  'T%02d:%02d' % (t // 3600, t // 60 % 60) if t % 60 == 0 else
+                                  'T%02d:%02d:%02d' % (t // 3600, t // 60 % 60, t % 60))
+                if want not in got:
+                    return 'evaluate-duration-incomplete', 'expected %r (datetime + duration inside %s), got %s' % (
+                        want, dcs[0].text, sorted(got)[:6])
+    return None
+
+
+def duration_cases(ctx):
+    r = ctx.rng('evaluate-dur')
+    dts = []
+    for t in DATETIME_CONS:
+        m = re.match(r'^(\d+)-(\d+)-(\d+)T(\d+)(?::(\d+))?(?::(\d+))?$', t)
+        dts.append(Con(t, 'datetime', datetime.datetime(int(m.group(1)), int(m.group(2)), int(m.group(3)), int(m.group(4)),
+                                                        int(m.group(5) or 0), int(m.group(6) or 0))))
+    dcs = date_constraints(ctx)
+    cases = []
+    for d in DUR_CANDS:
+        for st in dts:
+            for dc in dcs:
+                cases.append(([d], [st, dc]))
+                cases.append(([d], [dc, st]))
+    for _ in range(4000 if ctx.thorough else 500):
+        cs = r.sample(DUR_CANDS, r.choice([1, 1, 2]))
+        l = [r.choice(dts) for _ in range(r.choice([1, 1, 2]))] + [r.choice(dcs) for _ in range(r.choice([1, 1, 2]))]
+        r.shuffle(l)
+        cases.append((cs, l))
+    return cases
+
+
 def evaluate_cases(ctx):
     r = ctx.rng('evaluate')
     dcs = date_constraints(ctx, wide=True)
@@ -428,7 +516,7 @@ def evaluate_cases(ctx):
         lists = [list(p) for n in (2, 3) for p in itertools.permutations(pool, n)]
         sets = cand_sets[:9] + cand_sets[15:17]
         for l in lists:
-            for cs in (sets if len(l) == 2 else [sets[hash(tuple(c.text for c in l)) % len(sets)], sets[1]]):
+            for cs in (sets if len(l) == 2 else [sets[zlib.crc32('|'.join(c.text for c in l).encode()) % len(sets)], sets[1]]):
                 cases.append((cs, l))
     for _ in range(30000 if ctx.thorough else 5000):
         n = r.choice([1, 2, 2, 3, 3])
@@ -495,7 +583,7 @@ def _correspond(ctx):
     ctx.sample({'op': ops[len(ops) // 2], 'implementation': impl[len(ops) // 2]})
 
     # ------------------------------------------------ evaluate
-    cases = evaluate_cases(ctx)
+    cases = evaluate_cases(ctx) + duration_cases(ctx)
     seen = set()
     uniq = []
     for cs, l in cases:
@@ -529,7 +617,8 @@ def _correspond(ctx):
         if a.startswith('ok') and len(a) > 3:
             ctx.nontriv(('e',) + ops[i][1:])
         raw = raws.get(i, a)
-        bad = oracle_evaluate(cs, l, raw if not isinstance(raw, str) or not raw.startswith('ok') else a)
+        oracle = oracle_evaluate_dur if any(c.kind == 'datetime' for c in l) else oracle_evaluate
+        bad = oracle(cs, l, raw if not isinstance(raw, str) or not raw.startswith('ok') else a)
         fi = {'op': 'TimexRangeResolver.evaluate(candidates, constraints)', 'candidates': list(cs),
               'constraints': [c.text for c in l], 'implementation': a if len(a) < 400 else a[:400] + '…', 'model': b if len(b) < 400 else b[:400] + '…',
               'values': [uncps(v[1:]) for v in a[3:].split(';') if v.startswith('S')][:12] if a.startswith('ok') else None,
